@@ -562,6 +562,68 @@ def hop_d(R, ctx, rule, slots):
                 f"Logger::build: {bad_fmt or bad_w}", where=b.loc())
 
 
+# documented effect of the FileSpec builder methods (rustdoc of FileSpec): field -> value
+FS_SETTERS = {
+    'directory': ('directory', 'into'), 'o_directory': ('directory', 'opt-into-else', "'.'"),
+    'basename': ('basename', 'into'), 'o_basename': ('basename', 'opt-into-else', None), 'suppress_basename': ('basename', 'const', "std::convert::Into::into('')"),
+    'discriminant': ('o_discriminant', 'some-into'), 'o_discriminant': ('o_discriminant', 'opt-some-into'),
+    'suffix': ('o_suffix', 'some-into'), 'o_suffix': ('o_suffix', 'opt-some-into'),
+    'suppress_timestamp': ('timestamp_cfg', 'const', 'TimestampCfg::No'),
+    'use_timestamp': ('timestamp_cfg', 'bool', 'TimestampCfg::Yes', 'TimestampCfg::No'),
+}
+
+
+def filespec_setters(R, ctx, rule):
+    """every public FileSpec builder method changes exactly the field it documents, to the value given (nothing swapped between directory /
+    basename / discriminant / suffix, no part silently dropped): the names the writer produces are those of the configuration the user wrote"""
+    f = ctx.f
+    FS = 'parameters::file_spec::FileSpec'
+    fnames = [n for n, _t in _struct_fields(f, FS)]
+    n = 0
+    for name, spec in sorted(FS_SETTERS.items()):
+        b = ctx.opt_body(r'^parameters::file_spec::FileSpec::' + name + '$')
+        if b is None:
+            raise CheckError(f"{rule}: public method FileSpec::{name} not found")
+        params = _params(b)
+        field, kind = spec[0], spec[1]
+        if field not in fnames:
+            raise CheckError(f"{rule}: FileSpec has no field `{field}`")
+        bad = None
+        rows = _rows(f, b.path)
+        for r in rows:
+            ch = {k: _plain(v) for k, v in _changed(fnames, r).items()}
+            extra = sorted(set(ch) - {field})
+            if extra:
+                bad = f"also changes `{extra[0]}`"
+                continue
+            v = ch.get(field)
+            p0 = params[0][0] if params else None
+            if kind == 'into':
+                ok = v in (f"std::convert::Into::into({p0})", p0)
+            elif kind == 'some-into':
+                ok = v in (f"Option::Some(std::convert::Into::into({p0}))", f"Option::Some({p0})")
+            elif kind == 'opt-some-into':
+                ok = (v == 'Option::None') if r.get(f'variant({p0})') == 'None' else v in (f"Option::Some(std::convert::Into::into({p0}.0))", f"Option::Some({p0}.0)")
+            elif kind == 'opt-into-else':
+                if r.get(f'variant({p0})') == 'None':
+                    ok = v is not None and (spec[2] is None or v == spec[2]) and not any(re.search(r'\bself\.' + o + r'\b', v) for o in fnames)
+                else:
+                    ok = v in (f"std::convert::Into::into({p0}.0)", f"{p0}.0")
+            elif kind == 'const':
+                ok = v == spec[2]
+            elif kind == 'bool':
+                t = r.get(p0)
+                ok = t in (True, False) and v == (spec[2] if t else spec[3])
+            else:
+                raise CheckError(f"{rule}: oracle kind {kind}")
+            if not ok:
+                bad = f"stores `{(v or 'nothing')[:60]}` in `{field}`"
+        n += 1
+        R.check(rule, f"{b.path}|file-spec-setter", not bad, f"{len(rows)} rows: changes `{field}` only, to the documented value",
+                f"FileSpec::{name} {bad}: the file names are not those of the configured file spec", where=b.loc())
+    return n
+
+
 def config_wiring(R, ctx, rule, prop):
     slots = SLOTS[prop]
     slot2bf = hop_a(R, ctx, rule, slots)
@@ -571,6 +633,8 @@ def config_wiring(R, ctx, rule, prop):
     nc = hop_c(R, ctx, rule, slots)
     if slots & {'cfg:use_utc', 'cfg:file_spec', 'flw:format'}:
         hop_d(R, ctx, rule, slots)
+    if prop == 'C16':
+        filespec_setters(R, ctx, rule)
     if nb < 1:
         raise CheckError(f"{rule}: no builder method of this property's slots found")
     return nb, nc
